@@ -127,14 +127,14 @@ def handleBits (toks : List String) : String :=
   | some lhs, some rhs => if bitsEquiv lhs rhs then "1" else "0"
   | _, _ => "bad-op"
 
-/-- `excavate <sexpr>` / `burrow <sexpr>` : the ITE relocation algorithms with the raw node constructor and the `Not` simplifier
+/-- `excavate <sexpr>` / `burrow <sexpr>` : the ITE relocation algorithms (excavate: rule-table constructor, so that intermediate `If` nodes are simplified as `claripy.If` does; burrow: raw constructor) with the `Not` simplifier
 (the harness rebuilds the answer through the real constructors and requires the object the real algorithm returned) -/
 partial def exprSize : Expr → Nat
   | .app _ args => 1 + (args.map exprSize).foldl (· + ·) 0
   | _ => 1
 def handleExcavate (toks : List String) : String :=
   match parseExpr toks with
-  | some e => toSexpr (excavate (fun op args => .app op args) mkNot e)
+  | some e => toSexpr (excavate mkRules mkNot e)
   | none => "bad-op"
 def handleBurrow (toks : List String) : String :=
   match parseExpr toks with
